@@ -458,6 +458,13 @@ func (e *lxEnv) steps(list []ast.Stmt, loop string, res *lxResult) bool {
 				i += 2
 				continue
 			}
+			// the First idiom written as two guards: if l.First {return true}; if r.First {return false}
+			if sel, ok := st.Cond.(*ast.SelectorExpr); ok && sel.Sel.Name == "First" {
+				res.keys = append(res.keys, lxKey{Expr: e.src(st.Cond), Kind: "first", MoreIsLess: true, Loop: loop})
+				res.needsAtMostOne = e.src(st.Cond)
+				i += 2
+				continue
+			}
 			// boolean pair: A && !B with B mirror of A
 			if and, ok := st.Cond.(*ast.BinaryExpr); ok && and.Op == token.LAND {
 				if not, ok := and.Y.(*ast.UnaryExpr); ok && not.Op == token.NOT && e.mirror(and.X, not.X, false) && e.src(and.X) != e.src(not.X) {
